@@ -309,6 +309,47 @@ def judge(run, cases, model, cres, exe, drv, limit):
                 run.bump("uninit-arity-same-outcome-both-fills")
 
 
+def wf_pass(run, cases, model, items):
+    """C01 spec evaluation on what the synthetic backend builds: the canonical dump (harness/hwv_dump.h through
+    C01's harness) of accepted descriptions goes through the verified checker wf_check and hwloc_topology_check()."""
+    from checks import c01 as K1
+    exe1 = C.build_harness("hwv_topo", ["hwv_topo.c"], deps=K1.DEPS)
+    drv1 = C.extract("C01", "drv_c01.ml", prelude=K1.PRELUDE)
+    sel = []
+    for idx, mode, d in items:
+        m = model.get(str(idx))
+        if mode != "l" or not m or not m["info"] or int(m["info"]["sum"]) > 3000:
+            continue
+        if any(ch in d for ch in "\n\r") or d != d.strip() or not d:
+            continue
+        sel.append((idx, d))
+    if run.tier == "quick":
+        sel = sel[:400]
+    wcases = [("synthetic:%r" % d, ["filter 10 0", "filter 11 0", "filter 12 0", "filter 15 0", "src synthetic " + d], "synthetic") for idx, d in sel]
+    res = K1.run_cases(run, wcases, exe1, drv1)
+    for k, (idx, d) in enumerate(sel):
+        r = res.get(k)
+        if r is None:
+            run.violation("wf-not-run", "dump case did not run", replay_text(d), no_input=True)
+        elif "crash" in r:
+            run.violation("wf-crash", "crash while dumping %r" % d[:80], replay_text(d, r["crash"]))
+        elif r["load"] is None or "rc=0" not in r["load"]:
+            run.violation("wf-load", "description loaded by hwv_synthetic but not by hwv_topo: %r" % d[:80], replay_text(d, str(r["load"])), no_input=True)
+        elif r["wf"] is None or not r["wf"].startswith("wf ok"):
+            clauses = sorted(set(re.findall(r"([a-z-]+)@", r["wf"] or "")))
+            big = [int(x) for l in model[str(idx)]["L"] for x in re.findall(r"(?:mem=|att=|;)(\d+)", l) if int(x) >= 2 ** 56]
+            if clauses == ["total-memory"] and big:
+                # memory=-1 and the like: the 64-bit total_memory sum wraps; WF sums in unbounded N
+                run.bump("drift:total-memory-wraps-64-bits")
+                continue
+            run.violation("wf:%s" % ",".join(clauses), "topology built from %r violates well-formedness clause(s) %s" % (d[:80], clauses), replay_text(d, str(r["wf"])))
+        elif r["check"] != "check ok":
+            run.violation("topology_check-abort", "hwloc_topology_check() aborts on %r" % d[:80], replay_text(d))
+        else:
+            run.bump("wf_check:ok")
+    run.cov["wf_checked"] = len(sel)
+
+
 def check(run, replay=None):
     proof = C.prove("C07")
     exe = C.build_harness("hwv_synthetic", ["hwv_synthetic.c"])
@@ -344,6 +385,7 @@ def check(run, replay=None):
     for e in cres.pop("__errors__", []):
         run.violation("harness-error", "C harness failed outside a case: " + e[-200:], e, no_input=True)
     judge(run, cases, model, cres, exe, drv, limit)
+    wf_pass(run, cases, model, items)
     run.cov["rule"] = "one case = one description string; non-trivial = accepted by the model; loaded and compared object-by-object when <= %d objects" % limit
     run.cov["loaded_and_compared"] = sum(1 for i, m_, d in items if m_ == "l")
     run.assumptions += [
